@@ -538,6 +538,18 @@ class ExecutorBase:
                 st.write(f, o, st.fresh("set" + f[1:], st.read(f, o).sort()))
             st.assume(H.dict_wf(st, o))
             return out
+        if isinstance(op, ast.Mult) and {an, bn} == {"list", "int"}:
+            # list repetition: exact for a one-element list (the only form met so far); a non-positive count gives []
+            lst, cnt = (a, b) if an == "list" else (b, a)
+            st = self.st
+            rl = H.rid(lst)
+            if simplify_bool(H.list_len(st, rl) == 1) is not True and st.feasible(H.list_len(st, rl) != 1):
+                raise Unsupported("list repetition of a list that is not known to have exactly one element")
+            n = z3.If(IV(cnt.term) > 0, IV(cnt.term), 0)
+            out = H.list_new(st, None, n, ty=lst.ty)
+            j = z3.Int(st.fresh_name("j"))
+            st.assume(z3.ForAll([j], z3.Implies(z3.And(0 <= j, j < n), H.list_get(st, H.rid(out), j) == H.list_get(st, rl, 0))))
+            return out
         if isinstance(op, ast.Mod) and an == "str":
             self.dropped.add("%-format string value (opaque string)")
             return SV(mk_str(self.st.fresh("fstr", z3.StringSort())), Ty("str"))
